@@ -53,7 +53,7 @@ TRUSTED_BASE = [
     "stdlib axioms as Print Assumptions reports them: ClassicalDedekindReals.sig_forall_dec, "
     "ClassicalDedekindReals.sig_not_dec, FunctionalExtensionality.functional_extensionality_dep, Classical_Prop.classic",
     "Coq primitive Int63/binary64 floats and the stdlib axioms specifying them (FloatAxioms.*, Uint63.*), used by the interval tactic",
-    "libraries: Coquelicot 3.2, Interval 4.6.1 (+Flocq, Bignums), MathComp 1.15 where used",
+    "libraries: Coquelicot 3.2, Interval 4.6.1 (+Flocq, Bignums) (MathComp is installed but not used)",
     "tools/rs2coq.py + tools/rustparse.py (translator: Rust subset parser, unit table, decimal literal -> exact rational)",
     "vlib/*.py + props/*.py (case generation, f64 -> exact rational, oracle evaluation), harness/ (Rust: input generation, "
     "observation printing, catch_unwind classification)",
